@@ -1,3 +1,5 @@
+#![recursion_limit = "4096"]
+#![allow(unused_parens)]
 mod args;
 mod gen;
 mod hist;
